@@ -1,6 +1,6 @@
 CONSTANTS
   SampleMod = 30
-  MaxOps = 0
+  MaxOps = 8
   Scripted = TRUE
   ExcuseKF = TRUE
   Dump = TRUE
